@@ -306,13 +306,14 @@ class CallMixin:
         self.inlined.add(dq)
         body = fnode.body
         for kind, s2, val in self.exec_block(body, callee):
-            back = s2.fork(); back.env = dict(st.env); back.ctx = st.ctx
+            back = s2.fork(); back.env = dict(st.env); back.ctx = st.ctx; back.exc_sink = st.exc_sink
             for g in ("__trace__", "__bn__"):
                 if g in s2.env: back.env[g] = s2.env[g]
             if kind in ("fall", "return"):
                 yield back, (val if val is not None else SV(T.NoneT, z3.BoolVal(True)))
             elif kind == "raise":
-                self.pending_raises.append((back, val))
+                back.exc_sink = st.exc_sink
+                if st.exc_sink is not None: st.exc_sink.append((back, val))
             else: raise VCError("break/continue escaped function %s" % dq)
 
     def construct(self, st, cq, args, kwargs, node):
@@ -365,7 +366,7 @@ class CallMixin:
         for exc, cond in c.raises:
             rs = st.fork()
             if cond is not None: rs.assume(self.spec_eval(cond.lstrip("?"), pre, c))
-            self.pending_raises.append((rs, exc))
+            if st.exc_sink is not None: st.exc_sink.append((rs, exc))
         # normal outcome: none of the must-raise conditions hold
         for exc, cond in c.raises:
             if cond is not None and not cond.startswith("?"):
